@@ -228,3 +228,17 @@ reg("C11", harness="c11_checksum", level="fault_enumeration", deadline=(300, 240
     runs=[dict(flavour="sim", part="verifier"), dict(flavour="sim", part="producer"), dict(flavour="sim", part="isize")],
     rule="case = (mutated wrapped stream, driver, capacity, kernel) / (input, level, wrapper, chunking, cpu); a candidate is non-trivial iff the "
          "reference verdict is not VALID; distinct_nontrivial counts those plus distinct produced streams.")
+
+
+reg("C19", harness="c19_headers", level="model_checking", deadline=(300, 1500), extra_src=["ref/ref_inflate.c"], engine="explore",
+    technique="full field-value product for the writers against an independent RFC producer + explicit-state exploration of the real header reader over all input chunkings and buffer-growth schedules",
+    level_text="Writers: the complete product of gzip header fields (18 432 combinations) x 5 output sizes around the required size and all zlib "
+               "header field combinations are compared byte for byte with an independent RFC 1952/1950 producer (itself cross-checked with zlib's "
+               "inflateGetHeader); too-small output must return the required size and leave stream and buffer untouched. Readers: for every "
+               "header of a field product the state graph of the real isal_read_gzip_header under ALL chunk sequences from {0,1,2,rest} and 7 "
+               "buffer-size modes x 2 growth policies (overflow -> larger buffer keeping delivered bytes -> resume) is explored; recovered fields, "
+               "stop position and statuses are checked; zlib reader under every composition of the header; all byte strings up to length 3 as headers.",
+    level_note="field values outside the product and chunk sizes outside {0,1,2,rest} are not covered; trusted: ref/ref_hdr.h",
+    runs=[dict(flavour="sim", part="writer"), dict(flavour="sim", part="reader")],
+    rule="writer case = (field combination, avail_out); reader state = image of inflate_state head + isal_gzip_header + caller buffers + cursor, "
+         "transition = one real isal_read_gzip_header call; distinct_nontrivial = distinct headers written + reader graphs completed.")
